@@ -900,6 +900,14 @@ class Server(Node):
         if not self.check_app_constraints(app):
             return False
 
+        # Affinity limits apply on each level, all the way to the top. Not
+        # every caller comes down through the buckets (eviction, restore).
+        node = self.parent
+        while node:
+            if not node.check_app_affinity_limit(app):
+                return False
+            node = node.parent
+
         prev_capacity = self.free_capacity.copy()
         self.free_capacity -= app.demand
         self.apps[app.name] = app
